@@ -165,6 +165,29 @@ def render_tree(ctx, obj, rng):
     return root
 
 
+def inject_raw(ctx, obj, rng):
+    """put a few values into the typed instance WITHOUT passing them through the library's converters (the constructor converts what it is
+    given, so a fault in a converter would otherwise shape the generator's own expectation): Unicode edge text in string elements, decimals with
+    more significant digits than the decimal context's precision.  The document is then written from these raw values."""
+    T = ctx.Types
+    for k, t in H.spec_no_list(ctx, type(obj)):
+        v = obj.__dict__.get(k)
+        if isinstance(v, ctx.Aggregate):
+            inject_raw(ctx, v, rng)
+        elif isinstance(v, str) and type(t) in (T.String, T.NagString) and rng.random() < 0.2:
+            e = rng.choice(H.EDGE_TEXT)
+            n = t.length or 40
+            new = (v[:max(0, n - len(e))] + e)[:n].strip()
+            if new and "&" not in new:
+                obj.__dict__[k] = new
+        elif isinstance(v, decimal.Decimal) and type(t) is T.Decimal and t.scale is None and rng.random() < 0.15:
+            digits = rng.randrange(10 ** 28, 10 ** rng.randint(29, 31))
+            obj.__dict__[k] = decimal.Decimal((rng.randint(0, 1), tuple(int(c) for c in str(digits)), -rng.randint(0, 6)))
+    for m in obj:
+        if isinstance(m, ctx.Aggregate):
+            inject_raw(ctx, m, rng)
+
+
 def to_text(e, sgml, rng):
     ws = rng.choice(["", "\n", "\r\n", "  "])
     if len(e) == 0 and e.text is not None:
@@ -221,6 +244,7 @@ def run(rep, tier, rng):
             obj = H.gen_instance(ctx, cls, rng, depth=2, full=0.6)
             if obj is None:
                 continue
+            inject_raw(ctx, obj, rng)
             tree = render_tree(ctx, obj, rng)
             sgml = rng.random() < 0.5
             text = to_text(tree, sgml, rng)
